@@ -320,12 +320,14 @@ def run(ctx, chk, tier="quick"):
             if s.stmt is not None and s.stmt.kind == "insert" and s.stmt.table == "time_grid":
                 cols = s.stmt.columns
                 pn = s.params_node
-                okc = False
-                if isinstance(pn, ast.Tuple) and len(pn.elts) == len(cols) and "time_step_s" in cols:
-                    v = pn.elts[cols.index("time_step_s")]
-                    okc = isinstance(v, ast.Name) and v.id == step_name
-                chk.ob("C10.O1", okc, where_of(gt, s.call), "time_grid columns %s <- %s" % (cols, ast.unparse(pn) if pn is not None else "?"),
-                       "time_step_s receives the grid step", key="populate_grid_time|stored-step")
+                v = s.column_values(gflow).get("time_step_s")
+                if v is None:
+                    chk.indeterminate("C10.O1", where_of(gt, s.call), "the value stored in time_grid.time_step_s is not a bound parameter")
+                else:
+                    vx = gflow.expand(v, keep={step_name} if step_name else set())
+                    okc = isinstance(vx, ast.Name) and vx.id == step_name
+                    chk.ob("C10.O1", okc, where_of(gt, s.call), "time_grid columns %s <- %s" % (cols, ast.unparse(pn) if pn is not None else "?"),
+                           "time_step_s receives the grid step", key="populate_grid_time|stored-step")
         # the grid INSERT happens after the append and writes every element
         gi = [s for s in ctx.sites_in(gt) if s.stmt is not None and s.stmt.kind == "insert" and s.stmt.table == "grid_time"]
         if gi and app:
@@ -553,10 +555,26 @@ def run(ctx, chk, tier="quick"):
                     n = n.func.value
                 return n
             pe, pv = strip(pe), strip(pv)
+            # through temporaries:  valid_epochs = time_grid[valid_mask].tolist()
+            for _h in range(3):
+                if isinstance(pe, ast.Name) and wflow.def_value(pe) is not None and not isinstance(wflow.def_value(pe), ast.Name):
+                    pe = strip(wflow.def_value(pe))
+                if isinstance(pv, ast.Name) and wflow.def_value(pv) is not None and not isinstance(wflow.def_value(pv), ast.Name):
+                    pv = strip(wflow.def_value(pv))
             ok = False
             desc = "epochs %s, values %s" % (ast.unparse(pe), ast.unparse(pv))
+            readable = True
+            if isinstance(pv, ast.Subscript) and pv.value is ic:
+                # the interpolation call itself, masked in place
+                pv = ast.Subscript(value=ast.Name(id="__interp__", ctx=ast.Load()), slice=pv.slice, ctx=ast.Load())
+                interp_inline = True
+            else:
+                interp_inline = False
+            if not (isinstance(pe, ast.Subscript) and isinstance(pv, ast.Subscript) and isinstance(pe.value, ast.Name) and isinstance(pv.value, ast.Name)):
+                chk.indeterminate("C10.O4", where_of(wl, ins[0].call), "stored rows (%s) are not two masked arrays" % desc[:100])
+                readable = False
             if isinstance(pe, ast.Subscript) and isinstance(pv, ast.Subscript) and isinstance(pe.value, ast.Name) and isinstance(pv.value, ast.Name):
-                vdef = wflow.def_value(pv.value)
+                vdef = wflow.def_value(pv.value) if not interp_inline else ic
                 val_from_interp = vdef is ic
                 e_grid = base_name(pe.value) == gridp
                 m_e = pe.slice
@@ -569,9 +587,12 @@ def run(ctx, chk, tier="quick"):
                         and isinstance(m_v.slice, ast.Slice) and (
                             (ast.unparse(m_v.slice.lower) if m_v.slice.lower is not None else "", ast.unparse(m_v.slice.upper) if m_v.slice.upper is not None else "") == xs)
                 ok = val_from_interp and e_grid and mname is not None and same_space and xs in (None, ("", "-1"))
-            chk.ob("C10.O4", ok, where_of(wl, ins[0].call), desc + "; interpolated on grid%s" % ("[%s:%s]" % xs if xs else ""),
+            if readable:
+                chk.ob(
+                    "C10.O4", ok, where_of(wl, ins[0].call), desc + "; interpolated on grid%s" % ("[%s:%s]" % xs if xs else ""),
                    "stored epochs grid[mask] and stored values interp[mask restricted to the interpolated instants]: the same mask in the same index space",
-                   key="populate_water_level|index-spaces", why="a mask shifted by one attaches every level to the neighbouring instant")
+                   key="populate_water_level|index-spaces", why="a mask shifted by one attaches every level to the neighbouring instant",
+                )
         else:
             chk.indeterminate("C10.O4", where_of(wl, wl.node), "INSERT INTO water_level with zip(epochs, values) not found")
 
